@@ -429,8 +429,11 @@ class Check:
             "violations": nviol,
         }
         ev["coverage"].update(self.extra)
-        os.makedirs(os.path.join(VERIF, "evidence"), exist_ok=True)
-        with open(os.path.join(VERIF, "evidence", self.prop + ".json"), "w") as f:
+        # evidence/ is only ever written from runs against /repo itself; mutation experiments (VERIF_REPO=<scratch copy>)
+        # write to work/mut-evidence/ instead
+        evdir = os.path.join(VERIF, "evidence") if os.path.realpath(REPO) == "/repo" else os.path.join(WORK, "mut-evidence")
+        os.makedirs(evdir, exist_ok=True)
+        with open(os.path.join(evdir, self.prop + ".json"), "w") as f:
             json.dump(ev, f, indent=1, default=repr)
         print("%s tier=%s seed=%s obligations=%d discharged=%d evaluations=%d nontrivial=%d disagreements=%d oracle_failures=%d known=%d violations=%d wall=%.0fs" % (
             self.prop, self.tier, self.seed, pr["obligations"], pr["discharged"], self.evaluations, len(self.nontrivial),
